@@ -122,13 +122,20 @@ impl Property for C20 {
         s.peers.push(peer_v4(1, 50, 0)); // owner of the wanted instances
         s.peers.push(peer_v4(1, 66, 0)); // the noise
         s.op(40, Op::Browse { d: 0, ty: WANTED_TY.into(), slot: 10 });
+        // a third of the worlds also browse a subtype of the wanted type; the wanted instances then carry its PTR too
+        let sub_browse = index % 3 == 1;
+        if sub_browse {
+            s.op(50, Op::Browse { d: 0, ty: format!("_sub1._sub.{WANTED_TY}"), slot: 13 });
+        }
         let second = rng.bool();
         if second {
             s.op(60, Op::Browse { d: 0, ty: "_also._udp.local.".into(), slot: 11 });
         }
         let resolve_host = rng.bool();
+        // (the caller spells the host name with capital letters in half of the worlds)
+        let host_spelling = if rng.bool() { "WantHost.local." } else { WANTED_HOST };
         if resolve_host {
-            s.op(80, Op::ResolveHost { d: 0, host: WANTED_HOST.into(), timeout: None, slot: 12 });
+            s.op(80, Op::ResolveHost { d: 0, host: host_spelling.into(), timeout: None, slot: 12 });
         }
         if index % 4 == 3 {
             s.op(100, Op::Register { d: 0, svc: SvcSpec { ty: "_mine._tcp.local.".into(), instance: "mine".into(), host: "minehost.local.".into(), addrs: vec!["192.168.1.10".into()], port: 9, txt: vec![], addr_auto: false, probe: true, intfs: None, link_local_only: false, txt_via: None } });
@@ -140,6 +147,12 @@ impl Property for C20 {
         let mut never = false;
         for k in 0..n_w {
             let ir = instance_recs(WANTED_TY, &format!("want {k}"), WANTED_HOST, 100 + k as u16, &["192.168.1.50"], &[], vec![0], max_ttl, max_ttl);
+            let mut ir = ir;
+            if sub_browse {
+                // the subtype PTR travels with the other records
+                let subn = Name::from_dotted(&format!("_sub1._sub.{WANTED_TY}"));
+                ir.addrs.push(Rec::ptr(&subn, &ir.inst, max_ttl));
+            }
             let recs = match rng.below(4) {
                 0 => {
                     never = true;
@@ -197,11 +210,14 @@ impl Property for C20 {
         }
         let t_stop = t + if pending { 10 + [5u64, 300, 700, 1200][rng.below(4) as usize] } else { 500 };
         s.op(t_stop, Op::StopBrowse { d: 0, ty: WANTED_TY.into() });
+        if sub_browse {
+            s.op(t_stop, Op::StopBrowse { d: 0, ty: format!("_sub1._sub.{WANTED_TY}") });
+        }
         if second {
             s.op(t_stop + 1, Op::StopBrowse { d: 0, ty: "_also._udp.local.".into() });
         }
         if resolve_host {
-            s.op(t_stop + 2, Op::StopResolveHost { d: 0, host: WANTED_HOST.into() });
+            s.op(t_stop + 2, Op::StopResolveHost { d: 0, host: host_spelling.into() });
         }
         // the stream goes on for a while after the stop
         let mut t2 = t_stop + 50;
@@ -284,6 +300,10 @@ impl C20 {
                     _ => continue,
                 };
                 *c.entry(k).or_insert(0) += 1;
+                // a subtype PTR also leaves an instance -> subtype entry
+                if r.ty == wire::T_PTR && r.name.0.iter().any(|l| l.eq_ignore_ascii_case(b"_sub")) {
+                    *c.entry("cached-subtype").or_insert(0) += 1;
+                }
             }
             let _ = (&wanted_ty, &wanted_host);
             c
@@ -347,6 +367,16 @@ impl C20 {
         // the final sample
         let Some((t, m)) = sample(24) else { return j };
         if t < t_stop {
+            return j;
+        }
+        // (only if every search of the scenario really has its stop call: a minimised scenario may have lost one)
+        let all_stopped = scn.ops.iter().all(|o| match &o.op {
+            Op::Browse { ty, .. } => scn.ops.iter().any(|x| x.at >= o.at && matches!(&x.op, Op::StopBrowse { ty: t2, .. } if t2 == ty)),
+            Op::ResolveHost { host, .. } => scn.ops.iter().any(|x| x.at >= o.at && matches!(&x.op, Op::StopResolveHost { host: h2, .. } if h2.to_lowercase() == host.to_lowercase())),
+            _ => true,
+        });
+        if !all_stopped {
+            j.abstained += 1;
             return j;
         }
         j.judgements += 1;
